@@ -21,7 +21,7 @@ class Contract(object):
                raises=None, loops=None, pure=None, inline=(), callbacks=(),
                asserts='prove', serves=(), mode='vc', spec=None, ghost=None,
                abstract=False, returns=None, locals_=None, assumes=(), lemmas=(),
-               exc_ensures=None, opaque_preserves=(), relate=None, note='', source=None, opaque_requires=(), private=(), exit_lemmas=(),
+               exc_ensures=None, opaque_preserves=(), relate=None, note='', source=None, opaque_requires=(), private=(), exit_lemmas=(), opaque_builtins=(),
                in_module=None):
     self.name = name
     self.types = dict(types or {})
@@ -51,6 +51,7 @@ class Contract(object):
     self.in_module = in_module
     self.opaque_requires = list(opaque_requires)
     self.exit_lemmas = list(exit_lemmas)   # trusted mathematical facts assumed at exit (listed in evidence)
+    self.opaque_builtins = set(opaque_builtins)   # builtins treated as observable events (event mode)
     self.private = list(private)   # locals holding objects allocated here that never escape
 
   @property
